@@ -391,7 +391,14 @@ def mirror(chk, F):
     # helpers of two parameters that the relations call (e.g. an extracted `haveEqualBounds(t1, t2)`): a helper
     # whose own clause list is closed under swapping its parameters is a symmetric relation, so the order of its
     # arguments does not matter in the caller
-    todo = [F.fn(q, n) for q, n in MIRROR_FUNCS]
+    def _rel(q, n):
+        """the relation as a member of TypeChecker, or moved out of the class into a file-static function"""
+        for cand in (q, q.split("::")[-1], "UTAP::" + q.split("::")[-1]):
+            f = F.fn(cand, n, required=False)
+            if f is not None and f.get("body") is not None:
+                return f
+        return F.fn(q, n)
+    todo = [_rel(q, n) for q, n in MIRROR_FUNCS]
     seen_h = set()
     helpers = []
     while todo:
@@ -427,7 +434,7 @@ def mirror(chk, F):
                 symmetric.add(hq.split("::")[-1])
                 changed = True
     for q, npar in MIRROR_FUNCS:
-        fn0 = F.fn(q, npar)
+        fn0 = _rel(q, npar)
         fn = inline_param_locals(fn0)
         p1, p2 = fn["params"][0]["name"], fn["params"][1]["name"]
         swap = {p1: p2, p2: p1}
